@@ -138,14 +138,17 @@ CHECKS.update(
         ),
         "C03": dict(
             category="proof",
-            technique=PYVC + " on Task.start/step/finish, EventTime.fuzz and Simulator.__step; " + WORLDS + " for the run-level clauses",
+            technique=PYVC + " on Task.start/step/finish, EventTime.fuzz, Simulator.__step and the main loop Simulator.simulate; " + WORLDS + " for the run-level clauses",
             text=(
                 "Proved for all inputs: Task.step reports completion iff 0 < remaining <= step (under last_step_time == now), leaves remaining exactly reduced otherwise, "
                 "and stamps the finish at now + remaining; Task.start keeps the strategy runtime exactly without variance and within [r, r(1+v/100)+1/2] with it; "
                 "Simulator.__step refuses negative steps (clock never backwards), advances the clock by exactly the step and stamps every TASK_FINISHED event with the new clock value, "
                 "keeping the event heap valid; Worker.step returns exactly the placed RUNNING tasks whose step reports completion; the placement handler starts a task exactly at the "
                 "event's time and the finish handler stamps completion with the time the last step reached. Bounded: finish - start == runtime, resources held over exactly [s, s+r], "
-                "events handled at their own time and in order, start >= chosen time; EventQueue cross-check against a reference model."
+                "events handled at their own time and in order, start >= chosen time; EventQueue cross-check against a reference model. Main loop (Simulator.simulate, loop invariant: valid heap, "
+                "nothing queued in the past, clock monotone): every step is min(smallest remaining time of a resident task, time to the earliest queued event) - obligations "
+                "loop.step_le_every_remaining_time, loop.step_le_time_to_next_event, loop.step_reaches_earliest_event (peek is an earliest event by the inductive lemma heap.root_earliest) - "
+                "and an event is handed to its handler only when the clock equals its time (call:Simulator.__handle_event.event_at_its_time)."
             ),
             note=BASE_NOTE + " Specific: WorkerPool.step is an assumed contract; floats as reals in fuzz; the exact upper bound of fuzz is a known finding (rounding).",
             design_ref="DESIGN.md section 6 (C03)",
@@ -211,20 +214,33 @@ CHECKS.update(
                 "occupancy version per pool (can_accomodate_strategy is an uninterpreted function of it; place_task bumps it); what 'fits' means is the proved Worker-level fit test "
                 "plus the bounded ledger stand-in. Bounded cross-check: every small input up to the stated bound, decisions replayed on an independent ledger."
             ),
-            note=BASE_NOTE + " Specific: WorkerPool.can_accomodate_strategy / place_task, WorkerPools.__copy__/__deepcopy__, Workload.get_schedulable_tasks, get_fastest_strategy, Task.remaining_time, Placement(s).__init__ are assumed contracts; sorted() is a library contract (permutation + ordered by the key under python's <).",
+            note=BASE_NOTE + " Specific: WorkerPool.can_accomodate_strategy / place_task, WorkerPools.__copy__/__deepcopy__, Workload.get_schedulable_tasks, Placements.__init__ are assumed contracts (get_fastest_strategy, Task.remaining_time, Placement.__init__ are verified; the concrete meaning of the pool fit test - some worker fits - is verified as WorkerPool.can_accomodate_strategy#body); sorted() is a library contract (permutation + ordered by the key under python's <).",
             design_ref="DESIGN.md section 6 (C13)",
         ),
         "C15": dict(
             category="exploration",
-            technique="bounded enumeration of Clockwork arrival histories (<= 3 invocations x <= 5 requests x 2 models x batch sizes {1,2,4} x loading states x both goals) driven like the simulator would",
-            text="Bounded stand-in: every returned placement set is checked for same-model full batches on a loaded worker that can hold the strategy, on-time w.r.t. the earliest deadline, no request placed twice across invocations, hopeless requests cancelled; Model queue invariants after each call.",
-            note="Bounded (bound in the evidence); the driver mimics simulator.py's application of placements.",
+            technique="bounded enumeration of Clockwork arrival histories (<= 3 invocations x <= 5 requests x 2 models x batch sizes {1,2,4} x loading states x both goals) driven like the simulator would; " + PYVC + " on Model.add_task / remove_task / get_placements (queue representation invariant)",
+            text=(
+                "Bounded stand-in (deciding): every returned placement set is checked for same-model full batches on a loaded worker that can hold the strategy, on-time w.r.t. the earliest deadline, "
+                "no request placed twice across invocations, hopeless requests cancelled; Model queue invariants after each call. Proved for all inputs at function level (not counted towards the level): "
+                "under the queue invariant (distinct queues, every queued request is THE registered request of its task, no request twice in a queue) Model.get_placements returns exactly batch_size "
+                "placements, for the first batch_size requests of the CHOSEN strategy's queue, all at sim_time under one fresh batch strategy with the chosen strategy's batch size and runtime, and "
+                "afterwards every batched task is in no queue and not registered; Model.remove_task removes the task's request from every queue; Model.add_task is idempotent and enters a new "
+                "request into every queue exactly once; each preserves the invariant."
+            ),
+            note="Bounded (bound in the evidence); the driver mimics simulator.py's application of placements. pyvc part: Request.__init__/__eq__/get_demand, BatchStrategy.__init__ and bisect.insort are assumed contracts (insertion position not modelled); the write to _last_used_at_worker is dropped.",
             design_ref="DESIGN.md section 6 (C15)",
         ),
         "C18": dict(
             category="exploration",
-            technique="bounded enumeration of task-graph states built through legal call sequences x times x lookaheads x switches against contracts from the statement; Task.is_complete under a proved contract",
-            text="Bounded stand-in: get_schedulable_tasks never starves a released task, never offers completed/cancelled tasks, offers scheduled/running ones only with retraction/preemption, is monotone in lookahead and release_taskgraphs; get_releasable_tasks and notify_task_completion release exactly the unlocked children.",
+            technique="bounded enumeration of task-graph states built through legal call sequences x times x lookaheads x switches against contracts from the statement; " + PYVC + " on TaskGraph.get_releasable_tasks and TaskGraph.notify_task_completion (release rule, both directions)",
+            text=(
+                "Bounded stand-in (deciding): get_schedulable_tasks never starves a released task, never offers completed/cancelled tasks, offers scheduled/running ones only with retraction/preemption, "
+                "is monotone in lookahead and release_taskgraphs; get_releasable_tasks and notify_task_completion release exactly the unlocked children. Proved for all inputs at function level "
+                "(not counted towards the level): get_releasable_tasks returns exactly the graph nodes in a releasable state whose every parent is complete (releasable.only / releasable.none_starved); "
+                "for a non-conditional task notify_task_completion releases only (release.only_unlocked_children) and every (release.every_unlocked_child) child that is not cancelled and is a join or "
+                "has all parents complete; for a conditional at most one child, of positive weight."
+            ),
             note="Bounded (bound in the evidence; 4-node frontier states sampled).",
             design_ref="DESIGN.md section 6 (C18)",
         ),
